@@ -32,7 +32,8 @@ BASE_PROFILE = dict(
     p_item_fault=0.0,
     item_fault_modes=["error", "unset", "baseerror", "falsyerror"],
     p_flush_fault=0.0,
-    p_same_object=0.08,  # a yielded container is yielded again / reached by two routes in one yield
+    p_same_object=0.08,
+    p_ctx_sync=0.0,  # logging contexts whose resume()/pause() make a synchronous asynq call  # a yielded container is yielded again / reached by two routes in one yield
     p_spawn=0.0,
     max_instances=300,
     sv_names=["sv0", "sv1", "at0"],
@@ -304,6 +305,8 @@ class Gen(object):
             "flush_faults": {},
             "defaults": {n: "dflt-" + n for n in p["sv_names"]},
         }
+        if p.get("p_ctx_sync") and rnd.random() < p["p_ctx_sync"]:
+            prog["ctx_sync"] = True
         if rnd.random() < p["p_shared"]:
             self.add_shared(prog)
         if p["p_flush_fault"] and rnd.random() < p["p_flush_fault"]:
